@@ -9,6 +9,8 @@
 From V.lib Require Import Bits Mem Res.
 From V.model Require Import Apu.
 From V.spec Require Import ApuSpec.
+From V.proofs Require ConstsTie.
+From V.gen Require GenConsts.
 From V.proofs Require Import ApuLemmas ApuStatusProofs ApuFreqProofs ApuLengthProofs.
 
 (* EXACT effect of any bus write (any address, any value) on any status flag, from every state:
@@ -256,3 +258,8 @@ Example C19_example :
   trigger_length 64 (64 - 62) false true = 1 /\
   lc_count (phase s1) (fseq s1) (4 * 4093) = 0 /\ lc_count (phase s1) (fseq s1) (4 * 4094) = 1.
 Proof. vm_compute. repeat split; try reflexivity; discriminate. Qed.
+
+(* the frame sequencer period of the model is the constant regenerated from audio.go on this run *)
+Theorem C19_sequencer_period_regenerated : V.model.Apu.frameSeqPeriod = V.gen.GenConsts.frameSeqPeriod.
+Proof. exact (proj1 V.proofs.ConstsTie.apu_periods_tie). Qed.
+Print Assumptions C19_sequencer_period_regenerated.
